@@ -1,5 +1,6 @@
 #!/usr/bin/env python3
 
+import numbers
 import numpy as np
 from scipy import signal
 
@@ -40,7 +41,7 @@ def periodogramSpectrum( data, fs ):
         raise ValueError( "Input data dimension should be 1" )
     if data.shape[ 0 ] < 2:
         raise ValueError( "Input data length should be at least 2" )
-    if not isinstance( fs, int ) and not isinstance( fs, float ):
+    if not isinstance( fs, numbers.Real ):
         raise ValueError( "fs should be a scalar" )
 
     ( freq, psd ) = signal.periodogram( data, fs, scaling='density' )
@@ -85,7 +86,7 @@ def welchSpectrum( data, fs, nperseg=1024 ):
         raise ValueError( "Input data dimension should be 1" )
     if data.shape[ 0 ] < 2:
         raise ValueError( "Input data length should be at least 2" )
-    if not isinstance( fs, int ) and not isinstance( fs, float ):
+    if not isinstance( fs, numbers.Real ):
         raise ValueError( "fs should be a scalar" )
 
     ( freq, psd ) = signal.welch( data, fs, nperseg=nperseg )
